@@ -62,9 +62,17 @@ func (w *Walker) loop(s ast.Stmt, in []*State) []*State {
 				}
 			}
 			// definition reading (DEF-COUNTS): the body is walked once for one arbitrary element — what the loop does to it
-			if w.A.oneIter && rng != nil {
+			if w.A.oneIter && (rng != nil || keyID != nil && table != nil) {
 				w.A.oneIterN++
-				w.bindLoopVars(rng, table, st, fmt.Sprintf("one%d", w.A.oneIterN))
+				if rng != nil {
+					w.bindLoopVars(rng, table, st, fmt.Sprintf("one%d", w.A.oneIterN))
+				} else {
+					// the counted form `for i := 0; i < len(T); i++`: i is an index of T
+					k := mkTerm(KLocal, fmt.Sprintf("rangekey:one%d:%s", w.A.oneIterN, table.S))
+					k.Reads = nil
+					k.Unsigned = false
+					w.bindLocal(keyID, k, st)
+				}
 				w.loops = append(w.loops, &loopCtx{})
 				out = append(out, w.stmts(body.List, []*State{st})...)
 				lc := w.loops[len(w.loops)-1]
@@ -73,7 +81,7 @@ func (w *Walker) loop(s ast.Stmt, in []*State) []*State {
 				// the treatment of an element depend on the ones before it, which this reading cannot express
 				out = append(out, lc.conts...)
 				if len(lc.breaks) > 0 {
-					w.undecided(rng, "break in a loop that is read as a per-element definition")
+					w.undecided(s, "break in a loop that is read as a per-element definition")
 					out = append(out, lc.breaks...)
 				}
 				continue
